@@ -31,6 +31,35 @@ Theorem C05_tpl_hook_name_configured : forall c,
 Proof. exact tpl_name_configured. Qed.
 Print Assumptions C05_tpl_hook_name_configured.
 
+(** Global form.  For every configuration (every verbosity), every fuel and every well-formed tree of the fragment
+    without optional chaining that does not mention the hook namespace: in whatever the operation visitor returns,
+    every member expression on the hook namespace -- at any depth -- is [_ddiast.<name>] with [name] one of the
+    configured replacement names.  (An instance of the generic measure theorem: P_Names.v.) *)
+From IastRw Require Import HookSites WfTree P_CountGlobal P_Names.
+Theorem C05_only_configured_names_are_dereferenced : forall c fuel root n s n' s',
+  op_visit c fuel root n s = Some (n', s') ->
+  wf_all n = true /\ ns_count n = 0 ->
+  t_status (o_t s) <> Cancelled ->
+  Forall (fun m => exists lo hi obj prop name,
+            m = Node (K KMember lo hi) [obj; prop] /\ ident_name_sym prop = Some name /\
+            In name (configured_dsts c)) (ns_members n').
+Proof. exact op_visit_only_configured. Qed.
+Print Assumptions C05_only_configured_names_are_dereferenced.
+
+(** Non-vacuity: a sum and a method call under a configuration that renames both. *)
+Example C05_names_example :
+  let c := {| c_prefix := "t"%string; c_methods := [{| m_src := "plusOperator"%string; m_dst := "add"%string; m_operator := true; m_awc := false |};
+                                             {| m_src := "trim"%string; m_dst := "strTrim"%string; m_operator := false; m_awc := false |}];
+              c_lit_callers := []; c_verbosity := VOff; c_literals := true; c_chain := false; c_comments := false; c_prefix_stmts := [] |} in
+  let call := mk_call (1, 9)%N (mk_member (1, 7)%N (mk_ident (1, 2)%N "a"%string) (mk_ident_name (3, 7)%N "trim"%string)) [] in
+  let e := mk_bin (1, 13)%N "+"%string call (mk_ident (12, 13)%N "b"%string) in
+  match op_visit c 20 true e {| o_p := p_init; o_t := t_init |} with
+  | Some (out, _) => map (fun m => match m with Node _ [_; prop] => ident_name_sym prop | _ => None end) (ns_members out)
+                     = [Some "strTrim"%string; Some "add"%string]
+  | None => False
+  end.
+Proof. vm_compute. reflexivity. Qed.
+
 (** A bare call is altered only for a method marked allowed-without-callee. *)
 Theorem C05_bare_call_needs_flag : forall c callee call p e tag p',
   replace_without_callee c callee call p = (Some (e, tag), p') ->
